@@ -27,7 +27,7 @@ func init() {
 	}
 	ExpectedProbes["deque/C15"] = []string{
 		"pop-to-empty-under-iter", "resize-wrapped-under-iter", "set-under-iter",
-		"iter-panicked", "iter-exhausted-clean",
+		"iter-panicked", "iter-called-again-after-panic", "iter-exhausted-clean",
 	}
 }
 
@@ -139,6 +139,7 @@ type dqIter struct {
 	since     uint8 // every kind of modification since creation (signature naming)
 	sinceFst  uint8 // every kind of modification since the first Next (signature naming)
 	touched   bool  // any mutator call at all since creation
+	poisoned  bool  // has panicked once
 }
 
 func dqSafeNext(it iterator.Iterator[*dqVal]) (item *dqVal, ok bool, panicked bool) {
@@ -666,7 +667,29 @@ func (w *dqW) iterNext(k int) {
 		if !it.touched {
 			r.Violate("C15", "deque-iter/panic-on-unchanged", "iterator it%d panicked although no mutator was called since it was created", it.id)
 		}
-		w.dropIter(k)
+		// A panic does not end the obligation: a later call on the same iterator is still judged
+		// (it may panic again; whatever it returns instead must still fit the snapshot).
+		if it.poisoned {
+			w.dropIter(k)
+		} else {
+			it.poisoned = true
+			r.Probe("iter-called-again-after-panic")
+			if r.Choose(2, "drain-after-panic") == 1 {
+				// keep calling it: until it panics again (and is dropped) or reports exhaustion
+				for n := 0; n < 40 && !r.Failed() && !it.exhausted; n++ {
+					at := -1
+					for q, o := range w.iters {
+						if o == it {
+							at = q
+						}
+					}
+					if at < 0 {
+						break
+					}
+					w.iterNext(at)
+				}
+			}
+		}
 		return
 	}
 	cur := w.m.view()
@@ -682,7 +705,7 @@ func (w *dqW) iterNext(k int) {
 		}
 		return
 	}
-	if it.started && it.addRem != 0 {
+	if it.started && it.addRem != 0 && !it.poisoned {
 		what := "reported exhaustion"
 		if ok {
 			what = "yielded an item"
